@@ -35,102 +35,153 @@ def closure_of(fb, entries):
     return closure, edges
 
 
-def ranking(b, head, tail):
-    """(ok, description): the natural loop (tail -> head) is controlled by a counter with a
-    constant positive start, tested `> k` (k >= 0) at the head, decremented by a positive
-    constant on every path to the back-edge and assigned nowhere else in the loop"""
-    loop = b.natural_loop(tail, head)
-    ht = b.blocks[head]['term']
-    if ht['k'] != 'switch':
-        return False, 'loop head bb%d does not end in a conditional exit' % head
-    d = ht['discr']
-    if d.get('k') not in ('copy', 'move') or d['p']['proj']:
-        return False, 'loop condition is not a plain local'
-    dl = d['p']['l']
-    cmp_stmt = None
-    for s in b.blocks[head]['stmts']:
-        if s['k'] == 'assign' and s['p']['l'] == dl and not s['p']['proj'] and s['r']['k'] == 'bin':
-            cmp_stmt = s['r']
-    if cmp_stmt is None or cmp_stmt['op'] not in ('Gt', 'Ge', 'Ne', 'Lt', 'Le'):
-        return False, 'loop condition is not a counter comparison'
-    # which operand is the counter (a copy of a local), which the constant
-    def src_local(o):
-        if o.get('k') in ('copy', 'move') and not o['p']['proj']:
-            l = o['p']['l']
-            for s in b.blocks[head]['stmts']:
-                if s['k'] == 'assign' and s['p']['l'] == l and not s['p']['proj'] and s['r']['k'] == 'use' and \
-                        s['r']['op'].get('k') in ('copy', 'move') and not s['r']['op']['p']['proj']:
-                    return s['r']['op']['p']['l']
-            return l
+def _src_local(b, bb, o):
+    """the local an operand is a (chain of) copy of, following copies assigned in block bb"""
+    if o.get('k') not in ('copy', 'move') or o['p']['proj']:
         return None
-    l, r = cmp_stmt['l'], cmp_stmt['r']
-    ctr = src_local(l)
-    k = int(r['int']) if r.get('k') == 'const' and 'int' in r else (int(r['bits']) if r.get('k') == 'const' and 'bits' in r else None)
-    if ctr is None or k is None or cmp_stmt['op'] not in ('Gt', 'Ge', 'Ne') or k < 0:
-        return False, 'loop condition is not `counter > const` (op %s)' % cmp_stmt['op']
-    # stay-in-loop edge must be the "true" edge
-    inside = [tgt for _, tgt in b.succ_edges(head) if tgt in loop and tgt != head]
-    true_tgt = ht['otherwise']
-    if true_tgt not in loop:
-        return False, 'the loop is left when the counter test is true'
-    # assignments to ctr
-    decs = set()
-    others = []
-    init = None
-    for i, blk in enumerate(b.blocks):
-        if blk['cleanup']:
+    l = o['p']['l']
+    for _ in range(4):
+        nxt = None
+        for s in b.blocks[bb]['stmts']:
+            if s['k'] == 'assign' and s['p']['l'] == l and not s['p']['proj'] and s['r']['k'] == 'use' and \
+                    s['r']['op'].get('k') in ('copy', 'move') and not s['r']['op']['p']['proj']:
+                nxt = s['r']['op']['p']['l']
+        if nxt is None:
+            break
+        l = nxt
+    return l
+
+
+def _const_of(o):
+    if o.get('k') == 'const':
+        if 'int' in o:
+            return int(o['int'])
+        if 'bits' in o:
+            return int(o['bits'])
+    return None
+
+
+def ranking_info(b, head, tail):
+    """(ok, description, info): the natural loop (tail -> head) is controlled by a counter: a test
+    evaluated on every iteration leaves the loop once the counter reaches its bound, the counter
+    starts at a positive constant, is decremented by a positive constant on every path to the
+    back-edge and assigned nowhere else in the loop"""
+    loop = b.natural_loop(tail, head)
+    tests = []
+    for i in sorted(loop):
+        t = b.blocks[i]['term']
+        if t['k'] != 'switch' or not (b.dominates(i, tail) or i == tail):
             continue
-        for s in blk['stmts']:
-            if s['k'] != 'assign' or s['p']['l'] != ctr or s['p']['proj']:
+        succs = b.succ_edges(i)
+        if not any(tgt not in loop for _, tgt in succs) or not any(tgt in loop for _, tgt in succs):
+            continue
+        d = t['discr']
+        if d.get('k') not in ('copy', 'move') or d['p']['proj']:
+            continue
+        dl = d['p']['l']
+        cmp_stmt = None
+        for s in b.blocks[i]['stmts']:
+            if s['k'] == 'assign' and s['p']['l'] == dl and not s['p']['proj'] and s['r']['k'] == 'bin':
+                cmp_stmt = s['r']
+        if cmp_stmt is None or cmp_stmt['op'] not in ('Gt', 'Ge', 'Ne', 'Eq', 'Lt', 'Le'):
+            continue
+        op = cmp_stmt['op']
+        ctr, k = _src_local(b, i, cmp_stmt['l']), _const_of(cmp_stmt['r'])
+        if ctr is None or k is None:
+            # constant on the left: flip
+            ctr, k = _src_local(b, i, cmp_stmt['r']), _const_of(cmp_stmt['l'])
+            op = {'Gt': 'Lt', 'Ge': 'Le', 'Lt': 'Gt', 'Le': 'Ge', 'Eq': 'Eq', 'Ne': 'Ne'}[op]
+        if ctr is None or k is None:
+            continue
+        stay_when_true = t['otherwise'] in loop
+        # normalise to "stays while ctr > m" (m >= 0) or "stays while ctr != 0"
+        kind = None
+        if stay_when_true and op == 'Gt' and k >= 0:
+            kind = ('gt', k)
+        elif stay_when_true and op == 'Ge' and k >= 1:
+            kind = ('gt', k - 1)
+        elif not stay_when_true and op == 'Le' and k >= 0:
+            kind = ('gt', k)
+        elif not stay_when_true and op == 'Lt' and k >= 1:
+            kind = ('gt', k - 1)
+        elif stay_when_true and op == 'Ne' and k == 0:
+            kind = ('ne0', 0)
+        elif not stay_when_true and op == 'Eq' and k == 0:
+            kind = ('ne0', 0)
+        if kind:
+            tests.append((i, ctr, kind))
+    if not tests:
+        return False, 'no exit test `counter > const` / `counter != 0` is evaluated on every iteration of the loop at %s' % b.where(head), None
+    last_why = ''
+    for test_bb, ctr, kind in tests:
+        decs = set()
+        dec_by = set()
+        others = []
+        init = None
+        for i, blk in enumerate(b.blocks):
+            if blk['cleanup']:
                 continue
-            rv = s['r']
-            is_dec = False
-            if rv['k'] == 'bin' and rv['op'] in ('Sub', 'SubUnchecked') and src_local(rv['l']) == ctr and rv['r'].get('k') == 'const' and int(rv['r'].get('int', 0)) > 0:
-                is_dec = True
-            if rv['k'] == 'use' and rv['op'].get('k') in ('copy', 'move') and rv['op']['p']['proj'] and rv['op']['p']['proj'][0].get('i') == 0:
-                # move of the .0 of a SubWithOverflow(ctr, c) tuple
-                tl = rv['op']['p']['l']
-                for blk2 in b.blocks:
-                    for s2 in blk2['stmts']:
-                        if s2['k'] == 'assign' and s2['p']['l'] == tl and not s2['p']['proj'] and s2['r']['k'] == 'bin' and \
-                                s2['r']['op'] == 'SubWithOverflow' and src_local(s2['r']['l']) == ctr and \
-                                s2['r']['r'].get('k') == 'const' and int(s2['r']['r'].get('int', 0)) > 0:
-                            is_dec = True
-            if i in loop:
-                if is_dec:
-                    decs.add(i)
+            for s in blk['stmts']:
+                if s['k'] != 'assign' or s['p']['l'] != ctr or s['p']['proj']:
+                    continue
+                rv = s['r']
+                is_dec = False
+                if rv['k'] == 'bin' and rv['op'] in ('Sub', 'SubUnchecked') and _src_local(b, i, rv['l']) == ctr and (_const_of(rv['r']) or 0) > 0:
+                    is_dec = True
+                    dec_by.add(_const_of(rv['r']))
+                if rv['k'] == 'use' and rv['op'].get('k') in ('copy', 'move') and rv['op']['p']['proj'] and rv['op']['p']['proj'][0].get('i') == 0:
+                    tl = rv['op']['p']['l']
+                    for j, blk2 in enumerate(b.blocks):
+                        for s2 in blk2['stmts']:
+                            if s2['k'] == 'assign' and s2['p']['l'] == tl and not s2['p']['proj'] and s2['r']['k'] == 'bin' and \
+                                    s2['r']['op'] == 'SubWithOverflow' and _src_local(b, j, s2['r']['l']) == ctr and (_const_of(s2['r']['r']) or 0) > 0:
+                                is_dec = True
+                                dec_by.add(_const_of(s2['r']['r']))
+                if i in loop:
+                    (decs.add(i) if is_dec else others.append(i))
                 else:
-                    others.append(i)
-            else:
-                if rv['k'] == 'use' and rv['op'].get('k') == 'const' and 'int' in rv['op'] and b.dominates(i, head):
-                    init = int(rv['op']['int'])
-                elif i in b.reachable(0):
-                    others.append(i)
-        t = blk['term']
-        if t['k'] == 'call' and t['dest']['l'] == ctr and i in loop:
-            others.append(i)
-    if init is None or init <= 0:
-        return False, 'counter _%d has no constant positive initial value dominating the loop' % ctr
-    if others:
-        return False, 'counter _%d is also assigned at %s' % (ctr, [b.where(i) for i in others])
-    if not decs:
-        return False, 'counter _%d is never decremented inside the loop' % ctr
-    # every path head -> tail inside the loop passes a decrement
-    avoid = set(decs)
-    reach = set()
-    st = [s for s in b.succs(head) if s in loop]
-    while st:
-        x = st.pop()
-        if x in reach or x in avoid or x not in loop:
+                    if rv['k'] == 'use' and _const_of(rv['op']) is not None and b.dominates(i, head):
+                        init = _const_of(rv['op'])
+                    elif i in b.reachable(0):
+                        others.append(i)
+            t = blk['term']
+            if t['k'] == 'call' and t['dest']['l'] == ctr and i in loop:
+                others.append(i)
+        if init is None or init <= 0:
+            last_why = 'counter _%d has no constant positive initial value dominating the loop' % ctr
             continue
-        reach.add(x)
-        if x == tail:
+        if others:
+            last_why = 'counter _%d is also assigned at %s' % (ctr, [b.where(i) for i in others])
             continue
-        st.extend(b.succs(x))
-    if tail in reach and tail not in decs:
-        return False, 'a path through the loop body reaches the back-edge without decrementing _%d' % ctr
-    return True, 'counter _%d starts at %d, loop continues while > %d, decremented at %s on every path to the back-edge' % (
-        ctr, init, k, sorted(b.where(i) for i in decs))
+        if not decs:
+            last_why = 'counter _%d is never decremented inside the loop' % ctr
+            continue
+        if kind[0] == 'ne0' and dec_by != {1}:
+            last_why = 'loop runs while _%d != 0 but the counter is decremented by %s (can step over 0)' % (ctr, sorted(dec_by))
+            continue
+        reach = set()
+        st = [s_ for s_ in b.succs(head) if s_ in loop]
+        while st:
+            x = st.pop()
+            if x in reach or x in decs or x not in loop:
+                continue
+            reach.add(x)
+            if x == tail:
+                continue
+            st.extend(b.succs(x))
+        if (tail in reach and tail not in decs) or (head == tail and head not in decs and not decs):
+            last_why = 'a path through the loop body reaches the back-edge without decrementing _%d' % ctr
+            continue
+        desc = 'counter _%d starts at %d, the loop is left unless %s (tested at %s on every iteration), decremented by %s at %s on every path to the back-edge' % (
+            ctr, init, ('_%d > %d' % (ctr, kind[1])) if kind[0] == 'gt' else ('_%d != 0' % ctr), b.where(test_bb), sorted(dec_by),
+            sorted(b.where(i) for i in decs))
+        return True, desc, {'ctr': ctr, 'init': init, 'decs': decs, 'dec_by': dec_by, 'kind': kind}
+    return False, last_why, None
+
+
+def ranking(b, head, tail):
+    ok, why, _ = ranking_info(b, head, tail)
+    return ok, why
 
 
 def run_rules(ctx, chk):
